@@ -25,6 +25,7 @@ EXPLANATION = (
     "R5 caller's data: may-alias dataflow from the constructor parameters (arrays and the options dict) through alias-preserving operations; "
     "no in-place store, augmented assignment or mutating method call through such an alias, also inside the validator and the transformer. "
     "R6 no shared mutable state (as C07-R4)."
+    " R7 the options container hands its key to the underlying dict unchanged in __setitem__/__getitem__/__delitem__."
 )
 
 NOISY_ADJUST = {"tol_stall_iters", "n_train_max", "n_train_min", "mesh_overflow_warning", "min_failed_poll_steps", "mesh_noise_multiplier",
